@@ -72,7 +72,7 @@ def get_system(options: model.Options) -> model.System:
     # step 3: move the system to the desired state
 
     if system.options.projectname is None:
-        name = '/'.join(system.root_names)
+        name = '/'.join(obj.name for obj in system.rootobjects)
         system.msg('warning', f"Guessing '{name}' for project name.", thresh=0)
         system.projectname = name
     else:
